@@ -41,6 +41,10 @@ def run_ops(ops):
                         c['execution_count'] = (c['execution_count'] or 0) + 3
                     if c['cell_type'] == 'markdown' and 'attachments' not in c:
                         c['attachments'] = {'k.png': {'image/png': nbspace.B64}}
+                    # ... and in cell metadata keys that key-list ignores name
+                    c['metadata']['collapsed'] = not c['metadata'].get('collapsed', False)
+                    c['metadata']['scrolled'] = True
+                    c['metadata']['tags'] = list(c['metadata'].get('tags', [])) + ['k%d' % ci]
                 out.append(digest(nbd.diff_notebooks(b, v)))
             elif kind == 'merge':
                 b, l, r = triple(op[1], op[2])
